@@ -92,7 +92,8 @@ def model_part(v, tier, invariants, clauses, props, seed_off=0, n_quick=1, shape
     if light:
         insts, ties, rnd_insts = insts[:5], ties[:1], []
     tot = AM.run_model(v, MgmBinding("lexic"), insts + ties + rnd_insts, consts, invariants + STRUCT, clauses, props, widen=widen,
-                       max_paths=800 if quick else None)
+                       max_paths=800 if quick else None,
+                       edges_for=(lambda i: True) if quick else (lambda i: AM.weight(i) <= 400))
     v.cov["mgm_model"] = dict(tot, stop_cycle=consts["StopCycle"], invariants=invariants + STRUCT)
     v.cov["replayed_paths"] = v.cov.get("replayed_paths", 0) + tot["paths"]
     v.cov["replayed_steps"] = v.cov.get("replayed_steps", 0) + tot["steps"]
